@@ -95,21 +95,13 @@ class C08(Check):
                 if after:
                     pos = rng.choice(after)
             prints.append([ri, di, si, pos, rng.choice(["offset", "offset", "offset", "bl", "extent"]), rng.randrange(1 << 20)])
-        # a directed skeleton: a variable-length array of sub-byte elements whose shortest and longest representations are
-        # byte-aligned (interior ones are not), followed by a nested composite, with _offset_ queried right after it
+        from .c06 import add_directed_offset_def
         root = ws["roots"][0]
-        msgs = [d for d in root["defs"] if len(d["secs"]) == 1 and not d.get("dep")]
-        if msgs and rng.random() < 0.5 and (root["name"] + ".Off").lower() not in {d["name"].lower() for d in root["defs"]}:
-            b, cap = rng.choice([(1, 8), (2, 4), (4, 2), (12, 2), (3, 8), (1, 16)])
-            m = rng.choice(msgs)
-            ref = ["ref", m["name"], m["ver"][0], m["ver"][1]]
-            items = [["f", ["var", ["u", b, "s"] if b > 1 else ["bool"], cap], "flags"], ["f", rng.choice([ref, ["arr", ref, 2], ["var", ref, 2]]), "inner"], ["f", ["u", 5, "t"], "tail"]]
-            if rng.random() < 0.4:
-                items.insert(0, ["f", ["u", 8, "s"], "head"])
-            root["defs"].append({"name": root["name"] + ".Off", "ver": [1, 0], "port": None, "ext": "dsdl", "dep": False,
-                                 "secs": [{"union": False, "hdr": None, "items": items, "seal": "sealed"}]})
-            ri, di = 0, len(root["defs"]) - 1
-            for pos in range(1, len(items) + 1):
+        off_idx = [i for i, d in enumerate(root["defs"]) if d["name"].endswith(".Off")]
+        loc = (0, off_idx[0]) if off_idx else (add_directed_offset_def(rng, ws) if rng.random() < 0.4 else None)
+        if loc is not None:
+            ri, di = loc
+            for pos in range(1, len(ws["roots"][ri]["defs"][di]["secs"][0]["items"]) + 1):
                 prints.append([ri, di, 0, pos, "offset", rng.randrange(1 << 20)])
         # base offset sets; one pair is *approximately equal* (same min, max and residues mod 32, different members)
         bases = [sorted({rng.choice([0, 1, 3, 8, 13, 16, 32, 64, 71]) for _ in range(rng.randint(1, 3))}) for _ in range(2)]
